@@ -180,6 +180,18 @@ def check(ctx):
                 ctx.call_method(Ib, sb, ob, "_update_post_selection", X, yv, i1)
                 for tab in ("hausdorff_", "hausdorff_at_select_"):
                     ctx.compare("R-PREFIX", f"{cfgp}: {tab} is the table of the search that picked them one by one", N, ctx.attr(st, o, tab), ctx.attr(sb, ob, tab), site_i, cfgp)
+        # (a'') a CUR-type search makes no selection while it is being set up: every selection goes through the scored
+        # loop (and its bookkeeping - the score of a selected item is zeroed), for every refresh interval
+        if "CUR" in cname:
+            for rec in (0, 1, 2):
+                cfgc = f"{cfg} recompute_every={rec} cold start"
+                Ic = ctx.interp(order=[("S", "<=", S)], assume=protocols.assume_default)
+                sc_ = State()
+                oc = ctx.construct(Ic, sc_, cls, **dict(ctor, recompute_every=rec))
+                sc_.heap[oc.obj.id]["_axis"] = vconst(axis)
+                ctx.call_method(Ic, sc_, oc, "_init_greedy_search", X, y, integer("S"))
+                nsel0 = ctx.attr(sc_, oc, "n_selected_")
+                ctx.ob("R-STATE", f"{cfgc}: nothing is selected before the scored loop starts", nsel0 is not None and nsel0.has_const and nsel0.const == 0, f"n_selected_ after _init_greedy_search = {nsel0!r}", site_i, cfgc)
         # (c) loop count of the whole fit
         I = ctx.interp(order=[("S", "<=", S)], assume=protocols.assume_default)
         st = State()
